@@ -32,7 +32,7 @@ try:
         out["checks"][c] = {"rc": r.returncode, "violations": len(viol), "first": viol[:3], "harness": [l[:300] for l in r.stderr.splitlines() if "HARNESS" in l][:3], "wall_s": round(time.time() - t, 1)}
 finally:
     sh(f"git -C {REPO} checkout -- . && rm -f {REPO}/tests/testdocs/testdoc.actual.*")
-dst = f"/verif/seeded/{prop}-{name}"
+dst = f"/verif/seeded/{name}" if name.startswith(prop + "-") else f"/verif/seeded/{prop}-{name}"
 os.makedirs(dst, exist_ok=True)
 shutil.copy(f"{seed}/patch.diff", dst); shutil.copy(f"{seed}/demo.py", dst)
 if os.path.exists(f"{seed}/notes.txt"):
